@@ -230,7 +230,10 @@ size_t ZSTD_estimateDDictSize(size_t dictSize, ZSTD_dictLoadMethod_e dictLoadMet
 size_t ZSTD_sizeof_DDict(const ZSTD_DDict* ddict)
 {
     if (ddict==NULL) return 0;   /* support sizeof on NULL */
-    return sizeof(*ddict) + (ddict->dictBuffer ? ddict->dictSize : 0) ;
+    /* ZSTD_initStaticDDict(.., ZSTD_dlm_byCopy, ..) keeps its copy right behind the object, in the caller's block */
+    {   int const holdsContent = (ddict->dictBuffer != NULL) || (ddict->dictContent == (const void*)(ddict+1));
+        return sizeof(*ddict) + (holdsContent ? ddict->dictSize : 0) ;
+    }
 }
 
 /*! ZSTD_getDictID_fromDDict() :
